@@ -51,7 +51,7 @@ PROPS = {
              "a symbol plus a tail, or random; after every Add all symbols registered so far are read back. Non-trivial: at least 3 operations, "
              "at least one Add and two reads. Distinct: hash of (target, operation list).",
         state_measure="distinct (number of registered symbols, symbol read, previously read symbol) triples",
-        probes=["input_ends_inside_symbol", "unregistered_proper_prefix"],
+        probes=["input_ends_inside_symbol", "unregistered_proper_prefix", "symbols_read_in_sequence"],
         real=["generic.SymbolRootNode", "generic.SymbolNode", "generic.GenericSymbolState", "io.StringScanner"],
         stub=[],
         assumptions=["model: map symbol -> type; a read returns the longest registered prefix, else the next single character as a plain symbol",
@@ -68,7 +68,7 @@ PROPS = {
              "GetByIndex, IsNull). Non-trivial: at least 3 operations including an in-place mutation (SetByIndex, SetLength or a change of a "
              "caller's slice). Distinct: hash of the operation list.",
         state_measure="distinct vectors (type, array length, number of alias edges) over the 4 handles",
-        probes=["caller_slice_mutated", "setbyindex_past_end", "clone_of_array", "equals_on_arrays", "mutate_with_alias_edges", "element_mutated_in_place", "nested_deeper_than_60"] + ["host_" + h for h in
+        probes=["caller_slice_mutated", "setbyindex_past_end", "clone_of_array", "equals_on_arrays", "mutate_with_alias_edges", "element_mutated_in_place", "nested_deeper_than_60", "nil_element_written"] + ["host_" + h for h in
                ["int", "int32", "uint", "uint32", "int64", "float32", "float64", "bool", "string", "time", "duration", "array", "variant", "nil", "struct", "slice", "map", "goarray", "structslice", "ptr", "ifacestruct", "func"]],
         real=["variants.Variant"],
         stub=[],
